@@ -483,6 +483,11 @@ struct BusUnit {
             }
         }
         if (n == 4 && op == "wcheck") return WCheck((unsigned)H(x[1]), (unsigned)H(x[2]), (u16)H(x[3]));
+        if (n == 2 && op == "reg") {   // reg <field name>: one register-file field
+            for (int i = 0; i < kFlatCount; ++i)
+                if (x[1] == kFlat[i].name) return Hex(kFlat[i].get(Regs()));
+            throw std::string("bad-op");
+        }
         if (n == 2 && op == "kind") return "model-only";
         if (n == 4 && op == "viewcheck") return ViewCheck(x[1], (u32)H(x[2]), (u16)H(x[3]));
         if (n == 2) {
